@@ -1,6 +1,6 @@
 """C18: Graph containers.  MAP (delegation to the one HashMap field), VIEW (roots/leaves/orphans), DOT (exports)."""
 import re
-from .core import (Obl, calls_in, callee_name, pretty, strip_payload, unwrap_payload, deep_unwrap, term_calls, term_mentions, proj_field,
+from .core import (Obl, calls_in, callee_name, pretty, strip_payload, unwrap_payload, deep_unwrap, term_calls, term_mentions, proj_field, expand_local, closure_result,
                    DIRECTED, UNDIRECTED)
 from .kernels import key_of
 
@@ -38,7 +38,8 @@ def map_rules(ctx, flavours):
         ms = _graph_methods(F, fl)
 
         def ret(b):
-            return deep_unwrap(F.prov(b).of_local(0))
+            # what the method computes, seen through straight-line helpers of the same container (e.g. get() = get_ref().cloned())
+            return deep_unwrap(expand_local(F, F.prov(b).of_local(0), lambda q: F.bodies[q]['impl_self_q'] == gp and q != b['q']))
 
         def chk(name, pred, inst):
             b = ms.get(name)
@@ -75,6 +76,8 @@ def map_rules(ctx, flavours):
                 nidx += 1
                 t = ret(b)
                 ok = _is_call(t, 'index', 2) and t[2][0] == MAPF and t[2][1] == P2_
+                # std's own definition of HashMap::index: get(k).expect(..)
+                ok = ok or (_is_call(t, 'get', 2) and t[2][0] == MAPF and t[2][1] == P2_ and any(callee_name(ct).split('::')[-1] in ('expect', 'unwrap') for _, ct in calls_in(b)))
                 out.append(Obl('MAP', q, b['span'], 'graph[k] = map[k]', bool(ok), 'returns ' + pretty(t)))
         if nidx == 0:
             out.append(Obl('MAP', gp, '-', 'Index impl present', False, 'no Index impl'))
@@ -147,18 +150,18 @@ def view_rules(ctx, flavours):
             if b is None:
                 out.append(Obl('VIEW', '%s::Graph::%s' % (fl, name), '-', name, False, 'anchor missing'))
                 continue
-            t = deep_unwrap(F.prov(b).of_local(0))
+            t = deep_unwrap(expand_local(F, F.prov(b).of_local(0), lambda q: F.bodies[q]['impl_self_q'] == fl + '::Graph' and q != b['q']))
             why = []
             ok = _is_call(t, 'collect', 1) and _is_call(t[2][0], 'cloned', 1) and _is_call(t[2][0][2][0], 'filter', 2) and _is_call(t[2][0][2][0][2][0], 'values', 1) and t[2][0][2][0][2][0][2][0] == MAPF
             if not ok:
                 why.append('not map.values().filter(..).cloned().collect(): ' + pretty(t))
             else:
                 clo = t[2][0][2][0][2][1]
-                cb = F.bodies.get(clo[1][len('closure:'):]) if isinstance(clo, tuple) and clo[0] == 'aggr' and clo[1].startswith('closure:') else None
-                if cb is None:
+                ct = closure_result(F, clo, [P2_])
+                if ct is None:
                     why.append('filter predicate is not a closure')
                 else:
-                    ct = F.prov(cb).of_local(0)
+                    ct = unwrap_payload(ct)
                     okc = isinstance(ct, tuple) and ct[0] == 'call' and ct[1] == '%s::node::Node::%s' % (fl, predname) and deep_unwrap(ct[2][0]) == P2_
                     if not okc:
                         why.append('predicate is %s, expected %s(node) un-negated' % (pretty(ct), predname))
